@@ -309,6 +309,8 @@ func init() {
 			r.Try(func() { ruleWhoStores(w, r, "R01.18") })
 			r.Rule("R01.10", 1, "only scoped result-less registrations enter the list of per-scope initializers (a singleton initializer in it would run again for every scope)")
 			r.Try(func() { ruleInitializerListMembership(w, r, "R01.10") })
+			r.Rule("R01.20", 1, "presence in the singleton table means constructed: the function that files a singleton records every output it is handed (no success exit without the store) - eager creation skips a descriptor only when its key is present, so an unrecorded output (a nil interface among several return values) makes the constructor run again and replace what the first run filed (known finding D25)")
+			r.Try(func() { ruleSingletonStoreRecordsAll(w, r, "R01.20") })
 		})
 	register("C02",
 		"Structural necessary conditions of 'scoped: one instance per scope, never shared': the scoped cache is written only in the Scoped clause of setInstance, starts as a fresh map in every scope and is reached only through the receiver; the Scoped clause of resolve consults the cache on the resolved key, returns the hit, constructs only on a miss; every success exit of createInstance has passed setInstance; the initializer pass runs once per created scope; the miss-test/fill pair must be atomic (known finding D2: it is not). NOT decided: identity/counts; fairness of retries.",
@@ -360,6 +362,8 @@ func init() {
 			r.Try(func() { ruleInitializerListMembership(w, r, "R02.13") })
 			r.Rule("R02.14", 1, "outputs of one constructor call are told apart by type and key")
 			r.Try(func() { ruleIdentityComparisons(w, r, "R02.14") })
+			r.Rule("R02.20", 1, "commit-after-validate in createInstance: no error exit after an output was stored, except the store's own error (a failed construction that leaves sibling outputs cached is completed by a retry with a second call of the constructor: two instances of one scoped registration in one scope - D19, C02-r11m1)")
+			r.Try(func() { ruleCommitAfterValidate(w, r, "R02.20") })
 		})
 	register("C03",
 		"Structural necessary conditions of 'transient: a fresh instance for every resolution and injection site': the Transient clause of resolve never consults a cache and every exit comes from a fresh createInstance; the Transient clause of setInstance writes no cache; resolution entry points (including GetGroup) memoise nothing; the invoker, builder and cached analysis records hold no per-call state (record confinement); arguments are resolved one by one per invocation. NOT decided: counts versus number of request sites.",
@@ -414,6 +418,8 @@ func init() {
 			r.Try(func() { ruleFunctionIdentity(w, r, "R04.1") })
 			r.Rule("R04.19", 3, "what a provider serves was wired by that provider: the instance tables are written by the creation chain only (an instance adopted from another provider was built with that provider's registrations - its group members, its overrides - not this one's)")
 			r.Try(func() { ruleWhoWritesTables(w, r, "R04.19", "R04.19", NewLockAnalysis(w)) })
+			r.Rule("R04.20", 10, "a table that outlives the call (struct field or package variable of map / sync.Map type) is never keyed by the printed name of a reflect.Type: String(), Name() and PkgPath() are descriptions - function-local types of one package print alike, and a cache keyed by the text serves the second type the tags, fields or analysis record of the first (C04-r11m1)")
+			r.Try(func() { ruleTypeNameKeys(w, r, "R04.20") })
 			r.Try(func() { ruleGroupOrder(w, r, "R04.2") })
 			r.Try(func() { ruleFieldFilters(w, r, "R04.3") })
 			r.Try(func() { ruleFamilyFanOut(w, r, "", "R04.4") })
